@@ -173,16 +173,14 @@ def run(check, an: Analysis):
                 enter[0] < events[0] < leave[-1]
     check.instance('P', 'Loop.run:inside-assign', verdict, where_fn(run_m.fn),
                    '_run_events() runs inside `with __LOOP_STATE__.assign(self)`')
-    run_fn = an.fn('usim.run')
-    made = [n_ for n_ in ast.walk(run_fn.node) if isinstance(n_, ast.Call)
-            and ast.unparse(n_.func) == '_Loop']
-    runs = [n_ for n_ in ast.walk(run_fn.node) if isinstance(n_, ast.Call)
-            and isinstance(n_.func, ast.Attribute) and n_.func.attr == 'run']
-    ok = len(made) == 1 and [ast.unparse(a) for a in made[0].args] == ['*activities'] and \
-        {kw.arg: ast.unparse(kw.value) for kw in made[0].keywords} == {'start': 'start'} \
-        and len(runs) == 1
+    from . import _run
+    run_fn, _acts, rps = _run.run_paths(an)
+    ok = bool(rps) and all(
+        len(rp.loops) == 1 and len(rp.runs) == 1 and rp.loops[0] < rp.runs[0]
+        and rp.initial in ('activities', 'root') and rp.start == 'start' for rp in rps)
     check.instance('P', 'usim.run:one-loop', ok, where_fn(run_fn),
-                   'loop = Loop(*activities, start=start); loop.run() exactly once')
+                   'loop = Loop(*activities, start=start); loop.run() exactly once on every '
+                   'path (%d normal paths)' % len(rps), analysed=len(rps))
     # ---- Q ------------------------------------------------------------------
     run_events = an.callee(LOOP, '_run_events')
     verdict, n = True, 0
